@@ -67,6 +67,16 @@ class Native:
             return {"result": {"abort": p.returncode, "stderr": p.stderr[-300:]}, "output": ""}
         return json.loads(out.split("\n")[-1])
 
+    def eval_many(self, sources, timeout=60):
+        """Real evaluation of many programs in ONE process (dev profile); falls back to one process each
+        when the batch dies (abort / hang), so a crashing program is attributed correctly."""
+        if not sources:
+            return []
+        try:
+            return self._batch(self.bin, "eval", sources, timeout=timeout)
+        except Exception:
+            return [self.eval_one(s) for s in sources]
+
     def close(self):
         if self.overlay is not None:
             self.overlay.cleanup()
@@ -244,6 +254,7 @@ class SkeletonChecker:
     def __init__(self, native, max_steps=400, max_paths=256, pattern_limit=12, solver_timeout_ms=10000, skeleton_budget_s=40):
         self.native = native
         self.skeleton_budget_s = skeleton_budget_s
+        self.max_witnesses = 64
         self.deadline = None
         self.max_steps = max_steps
         self.max_paths = max_paths
@@ -333,6 +344,8 @@ class SkeletonChecker:
             m = Machine(ctx, max_steps=self.max_steps)
             return m.run(prog)
 
+        witnesses = []
+
         for vm_out, ctx in eng.explore(run_vm, self.max_paths):
             self.stats["vm_paths"] += 1
             if time.time() > self.deadline:
@@ -347,6 +360,12 @@ class SkeletonChecker:
             if vm_out[0] == "diverged":
                 self.stats["diverged"] += 1
                 continue
+            # one concrete witness of this path: validated against the REAL interpreter below
+            if vm_out[0] in ("ok", "err") and len(witnesses) < self.max_witnesses and eng.check() == z3.sat:
+                mdl = eng.solver.model()
+                exp = ("ok", concretize_structure(vm_out[1], mdl), render(vm_out[2], mdl)) if vm_out[0] == "ok" \
+                    else ("err", vm_out[1], render(vm_out[2], mdl))
+                witnesses.append((model_source(mdl), exp))
             # reference under the machine's path condition
             ast = json.loads(json.dumps(d["ast"]))
             for ref_out, _ in eng.explore(lambda c: Ref(c, holes, fuel=self.max_steps * 12).run_program(ast), 16):
@@ -376,6 +395,24 @@ class SkeletonChecker:
                     model = eng.solver.model()
                     kind = "unsafe" if vm_out[0] == "unsafe" else ("residue" if "residue" in text else "mismatch")
                     findings.append(Finding(kind, text, model_source(model), skel))
+        # per-path witness validation: the real interpreter must do what the machine specification says
+        if witnesses:
+            outs = self.native.eval_many([w[0] for w in witnesses])
+            for (wsrc, exp), j in zip(witnesses, outs):
+                self.stats["witnesses"] = self.stats.get("witnesses", 0) + 1
+                no = native_outcome(j)
+                bad = None
+                if no[0] != exp[0]:
+                    bad = "real interpreter: %r; machine specification: %r" % (no[:2], exp[:2])
+                elif no[0] == "ok" and differs(no[1], exp[1]) is True:
+                    bad = "real value %r; machine specification %r" % (no[1], exp[1])
+                elif no[0] == "err" and no[1] != exp[1]:
+                    bad = "real error kind %s; machine specification %s" % (no[1], exp[1])
+                elif j.get("output", "") != exp[2]:
+                    bad = "real output %r; machine specification %r" % (j.get("output", "")[:80], exp[2][:80])
+                if bad:
+                    findings.append(Finding("witness", "the real interpreter deviates from the machine specification on a path witness: " + bad,
+                                            wsrc, skel, role="witness"))
         if getattr(eng, "truncated", False):
             self.stats["truncated"] += 1
         self.stats["queries"] += eng.queries
